@@ -38,7 +38,7 @@ def floors(tier):
             "best_match_is_descendant": 500, "best_match_is_toplevel": 2000,
             "reused_validator_sequences": 1000, "root_reference_objects": 500,
             "fault_cases": 2000, "fault_after_first_error": 300, "fault_before_first_error": 300,
-            "explicit_class_with_foreign_dollar_schema": 1000}
+            "explicit_class_with_foreign_dollar_schema": 1000, "non_object_whole_schemas": 20}
 
 
 # ------------------------------------------------------------------ recording proxies
@@ -399,6 +399,15 @@ def biased(rng, d):
 def run(ctx):
     impl.quiet()
     C = Cmp(ctx)
+    # whole schemas that are neither objects nor booleans, given to module-level validate() WITHOUT a class (the latest
+    # draft is chosen) and with every explicit class: SchemaError before the instance is looked at
+    if ctx.shard == 0:
+        for schema in ([], [{}], [True], "s", "", 5, 0, 1.5, None, [[]], ["type"], "http://json-schema.org/draft-04/schema#"):
+            for inst in ({"a": [1, {"b": 2}]}, [1, 2]):
+                ctx.count("non_object_whole_schemas")
+                C.invalid_schema_case(7, schema, inst, True)
+                for d in impl.DRAFTS:
+                    C.invalid_schema_case(d, schema, inst, False)
     rng = ctx.rng
     n = ctx.scale(1600, 20000)
     for i in range(n):
